@@ -151,6 +151,125 @@ theorem putBody_other (cfg : Cfg) (lc : LoopCheck) (ports : String → Option Po
       | none => exact ih ports hx.2
       | some q => simp only; rw [ih _ hx.2, upd_other _ _ _ _ hx.1]
 
+/-- accepted entries in front of a document: the rest runs on the state they leave -/
+theorem putBody_append (cfg : Cfg) (lc : LoopCheck) (ports : String → Option Port) (pre l : List PortDoc)
+    (h : (putBody cfg lc ports pre).2 = .ok) :
+    putBody cfg lc ports (pre ++ l) = putBody cfg lc (putBody cfg lc ports pre).1 l := by
+  induction pre generalizing ports with
+  | nil => rfl
+  | cons d r ih =>
+    simp only [List.cons_append, putBody] at h ⊢
+    cases hr : restoreChk cfg lc (exprMap ports) (ports d.id) d with
+    | error e => rw [hr] at h; cases h
+    | ok o =>
+      rw [hr] at h
+      cases o with
+      | none => exact ih ports h
+      | some q => exact ih _ h
+
+/-- **the error names the FIRST failing entry, judged on the ACTUAL intermediate state**: the document splits as
+`pre ++ d :: post`, the whole prefix `pre` is accepted from the start state, and `d` is refused by the loop body run on
+exactly the ports (and the expressions they carry) that `pre` left behind; what remains registered is that state plus
+the port the creation step of `d` added -/
+theorem putBody_first_failing (cfg : Cfg) (lc : LoopCheck) (ports : String → Option Port) (docs : List PortDoc)
+    (id : String) (e : EntryErr) (h : (putBody cfg lc ports docs).2 = .err id e) :
+    ∃ pre d post, docs = pre ++ d :: post ∧ d.id = id ∧ (putBody cfg lc ports pre).2 = .ok ∧
+      restoreChk cfg lc (exprMap (putBody cfg lc ports pre).1) ((putBody cfg lc ports pre).1 d.id) d = .error e ∧
+      (putBody cfg lc ports docs).1 =
+        upd (putBody cfg lc ports pre).1 d.id (createdFor cfg ((putBody cfg lc ports pre).1 d.id) d) := by
+  induction docs generalizing ports with
+  | nil => simp [putBody] at h
+  | cons d r ih =>
+    cases hr : restoreChk cfg lc (exprMap ports) (ports d.id) d with
+    | error e' =>
+      simp only [putBody, hr, PutResp.err.injEq] at h
+      refine ⟨[], d, r, rfl, h.1, rfl, ?_, ?_⟩
+      · simp only [putBody]; exact h.2 ▸ hr
+      · simp only [putBody, hr]
+    | ok o =>
+      cases o with
+      | none =>
+        have h' : (putBody cfg lc ports r).2 = .err id e := by simpa only [putBody, hr] using h
+        obtain ⟨pre, d', post, e1, e2, e3, e4, e5⟩ := ih ports h'
+        have hp : putBody cfg lc ports (d :: pre) = putBody cfg lc ports pre := by simp only [putBody, hr]
+        refine ⟨d :: pre, d', post, by rw [e1]; rfl, e2, ?_, ?_, ?_⟩
+        · rw [hp]; exact e3
+        · rw [hp]; exact e4
+        · rw [hp, ← e5]; simp only [putBody, hr]
+      | some q =>
+        have h' : (putBody cfg lc (upd ports d.id (some q)) r).2 = .err id e := by simpa only [putBody, hr] using h
+        obtain ⟨pre, d', post, e1, e2, e3, e4, e5⟩ := ih _ h'
+        have hp : putBody cfg lc ports (d :: pre) = putBody cfg lc (upd ports d.id (some q)) pre := by
+          simp only [putBody, hr]
+        refine ⟨d :: pre, d', post, by rw [e1]; rfl, e2, ?_, ?_, ?_⟩
+        · rw [hp]; exact e3
+        · rw [hp]; exact e4
+        · rw [hp, ← e5]; simp only [putBody, hr]
+
+/-- what the reset phase leaves is never a virtual port -/
+theorem startPort_not_virtual (c : Bool) (b : Option Port) (q : Port) (h : startPort c b = some q) :
+    q.pdef.virtual = false := by
+  unfold startPort afterReset at h
+  cases b with
+  | none => cases h
+  | some p =>
+    simp only at h
+    cases hv : p.pdef.virtual with
+    | true => rw [hv] at h; cases h
+    | false =>
+      rw [hv] at h
+      simp only [Bool.false_eq_true, if_false, Option.map_some, Option.some.injEq] at h
+      subst h
+      cases c <;> simpa [clearExpr] using hv
+
+/-- the reset phase, case by case: a virtual port of the target is gone, a missing port stays missing, any other port
+stays registered with its expression cleared (repaired code) and nothing else touched (`port.reset()` =
+`load_from_data({})` applies no attribute) -/
+theorem startPort_cases (c : Bool) (b : Option Port) :
+    (b = none → startPort c b = none) ∧
+    (∀ p, b = some p → p.pdef.virtual = true → startPort c b = none) ∧
+    (∀ p, b = some p → p.pdef.virtual = false → startPort c b = some (clearExpr c p)) := by
+  refine ⟨fun h => by subst h; rfl, fun p h hv => ?_, fun p h hv => ?_⟩
+  · subst h; simp [startPort, afterReset, hv]
+  · subst h; simp [startPort, afterReset, hv]
+
+/-- GET /ports over an enumeration `ids` of port ids (the registry is a function here): the entries of the registered
+ports among `ids`, in that order -/
+def getPorts (ports : String → Option Port) (ids : List String) : List PortDoc :=
+  ids.filterMap (fun id => (ports id).map (docOf id))
+
+/-- the source hub's registry, from the list of its ports -/
+def srcPorts (src : List (String × Port)) : String → Option Port :=
+  fun id => (src.find? (fun x => x.1 = id)).map (·.2)
+
+/-- GET reports the same entry for two ports with the same definition, attributes and (if enabled) value -/
+theorem docOf_congr (id : String) (r p : Port) (h1 : r.pdef = p.pdef) (h2 : r.attrs = p.attrs)
+    (h3 : enabledOf p = true → r.value = p.value) : docOf id r = docOf id p := by
+  have he : enabledOf r = enabledOf p := by simp only [enabledOf, boolAttr, h2]
+  simp only [docOf, h1, h2, he]
+  cases hp : enabledOf p with
+  | false => rfl
+  | true => simp [h3 hp]
+
+theorem filterMap_map_of_forall {α β γ : Type} (l : List α) (g : α → β) (f : β → Option γ) (k : α → γ)
+    (h : ∀ x ∈ l, f (g x) = some (k x)) : (l.map g).filterMap f = l.map k := by
+  induction l with
+  | nil => rfl
+  | cons a r ih =>
+    simp only [List.map_cons, List.filterMap_cons, h a List.mem_cons_self]
+    rw [ih (fun x hx => h x (List.mem_cons_of_mem _ hx))]
+
+theorem find_none_of_not_mem (src : List (String × Port)) (id : String) (h : id ∉ src.map (·.1)) :
+    src.find? (fun x => x.1 = id) = none := by
+  induction src with
+  | nil => rfl
+  | cons a r ih =>
+    simp only [List.map_cons, List.mem_cons, not_or] at h
+    simp only [List.find?_cons]
+    have : ¬ a.1 = id := fun e => h.1 e.symm
+    simp only [this, decide_false]
+    exact ih h.2
+
 /-- the expressions the hub carries are "below" the source's: every port has no expression or the source's -/
 def Below (S m : String → String) : Prop := ∀ id, m id = "" ∨ m id = S id
 
